@@ -19,6 +19,8 @@ pub struct Report {
     pub samples: Vec<Value>,
     pub notes: Vec<String>,
     pub tool_errors: Vec<String>,
+    /// order independent hash (xor of per-observation hashes) of observed output bits
+    pub hash: u64,
 }
 
 impl Report {
@@ -79,7 +81,7 @@ impl Report {
             );
         }
         json!({"props": props, "counters": self.counters, "samples": self.samples,
-               "notes": self.notes, "tool_errors": self.tool_errors})
+               "notes": self.notes, "tool_errors": self.tool_errors, "obs_hash": format!("{:016x}", self.hash)})
     }
     pub fn merge(&mut self, other: Report) {
         for (k, p) in other.props {
@@ -109,7 +111,22 @@ impl Report {
                 self.samples.push(v);
             }
         }
+        self.hash ^= other.hash;
         self.notes.extend(other.notes);
         self.tool_errors.extend(other.tool_errors);
     }
+}
+
+/// fold the bit patterns of an observation into the report's order independent hash
+pub fn hash_obs<T: crate::sc::Sc>(rep: &mut Report, c: &Option<Vec<T>>, r: &Option<Vec<T>>, j: &Option<Vec<T>>) {
+    let mut h: u64 = 0xcbf29ce484222325;
+    for part in [c, r, j] {
+        h = h.wrapping_mul(0x100000001b3) ^ 0xff;
+        if let Some(v) = part {
+            for x in v {
+                h = (h ^ x.bits()).wrapping_mul(0x100000001b3);
+            }
+        }
+    }
+    rep.hash ^= h;
 }
